@@ -76,8 +76,10 @@ def generate(seed, tier):
         n = len(spec["nodes"])
         dens = [rng.random() for _ in range(n)]
         if rng.random() < 0.3:
-            dens = [0.0] * n
-            dens[rng.randrange(n)] = 1.0
+            # a one-hot start; half of the time spelled with integers (np.array([0, 1, 0]))
+            one = 1 if rng.random() < 0.5 else 1.0
+            dens = [type(one)(0)] * n
+            dens[rng.randrange(n)] = one
         # history on the walked object: rewire (same node and hyperedge counts, still connected) and query again
         rewires = []
         cur = [list(e) for e in spec["edges"]]
@@ -248,10 +250,15 @@ def _walk_state(case, h, spec, stats, traces, phase):
         if (a, b) not in share:
             raise Violation("C18/walk/step-without-common-hyperedge", {"from": a, "to": b, "walk": short(walk), **ctx})
     # densities
-    s = np.array(case["density"], dtype=float)
-    s = s / s.sum()
+    if all(type(x) is int for x in case["density"]):
+        s0 = np.array(case["density"])  # integer dtype on purpose
+        stats["integer_density_starts"] = stats.get("integer_density_starts", 0) + 1
+    else:
+        s0 = np.array(case["density"], dtype=float)
+        s0 = s0 / s0.sum()
+    s = np.array(s0, dtype=float)
     try:
-        dens = RW.random_walk_density(h, s.copy(), min(case["time"], 25))
+        dens = RW.random_walk_density(h, s0.copy(), min(case["time"], 25))
     except Exception as e:  # noqa
         raise Violation("C18/walk/density-raised", {"exception": repr(e), **ctx})
     if len(dens) != min(case["time"], 25) + 1:
